@@ -1020,7 +1020,12 @@ impl Obs for C13 {
 // =====================================================================================
 // C14
 // =====================================================================================
-pub struct C14;
+#[derive(Default)]
+pub struct C14 {
+    /// a long-lived scratch state that every observed state is copied into with clone_from (the idiom
+    /// of a search that reuses one allocation); it previously held another state, often of the same turn
+    scratch: Option<GameState>,
+}
 
 impl Obs for C14 {
     fn on_state(&mut self, v: &View, st: &mut Stats) -> Check {
@@ -1041,6 +1046,21 @@ impl Obs for C14 {
             ensure!(gb == v.m.turn_boards[i], "C14:board_for_step", "board for step {} is [{}], but after {} steps of this turn it was [{}] at {}", i, board_text(&gb), i, board_text(&v.m.turn_boards[i]), v.describe());
             // all eight fields
             c10_views(&got.1, &v.m.turn_boards[i], &format!("piece_board_for_step({}) at {}", i, v.describe())).map_err(|f| Fail::new("C14:board_fields", f.detail))?;
+        }
+        // the same boards must be reported by a copy made with clone_from into a reused state
+        {
+            let mut sc = match self.scratch.take() {
+                Some(s) => s,
+                None => v.eng.clone(),
+            };
+            guard(|| sc.clone_from(v.eng)).map_err(|p| Fail::new("C14:panic", format!("clone_from panicked: {} at {}", p, v.describe())))?;
+            for i in 0..=k {
+                let gb = guard(|| read_board(sc.piece_board_for_step(i))).map_err(|p| Fail::new("C14:panic", format!("piece_board_for_step({}) on a clone_from copy panicked: {} at {}", i, p, v.describe())))?;
+                let gb = gb.map_err(|e| Fail::new("C14:board_inconsistent", e))?;
+                ensure!(gb == v.m.turn_boards[i], "C14:board_for_step_after_clone_from", "a copy made with clone_from into a reused state reports [{}] for step {}, but after {} steps of this turn the board was [{}] at {}", board_text(&gb), i, i, board_text(&v.m.turn_boards[i]), v.describe());
+            }
+            self.scratch = Some(sc);
+            st.bump("clone_from_copies_checked");
         }
         st.bump(&format!("state_step{}", k));
         if k >= 2 {
@@ -1072,6 +1092,27 @@ impl Obs for C15 {
     fn on_state(&mut self, v: &View, st: &mut Stats) -> Check {
         st.eval();
         let s = v.eng;
+        // a sink that fails part-way (a bounded buffer, a closed pipe) must not influence later printing
+        {
+            struct Bounded(usize);
+            impl std::fmt::Write for Bounded {
+                fn write_str(&mut self, x: &str) -> std::fmt::Result {
+                    if x.len() > self.0 {
+                        self.0 = 0;
+                        Err(std::fmt::Error)
+                    } else {
+                        self.0 -= x.len();
+                        Ok(())
+                    }
+                }
+            }
+            use std::fmt::Write as _;
+            let limit = (v.m.board.fingerprint() % 260) as usize;
+            let _ = guard(|| {
+                let mut w = Bounded(limit);
+                let _ = write!(w, "{}", s);
+            });
+        }
         let printed = guard(|| s.to_string()).map_err(|p| Fail::new("C15:print_panic", format!("{} at {}", p, v.describe())))?;
         let parsed = guard(|| printed.parse::<GameState>()).map_err(|p| Fail::new("C15:parse_panic", format!("{} on printed form of {}", p, v.describe())))?;
         let p = parsed.map_err(|e| Fail::new("C15:printed_form_rejected", format!("parser rejects the printed form ({}) of {}:\n{}", e, v.describe(), printed)))?;
